@@ -19,6 +19,7 @@ import (
 	"encoding/base64"
 	"fmt"
 	"maps"
+	"regexp"
 	"slices"
 	"strings"
 	"sync"
@@ -645,6 +646,8 @@ func removeDuplicates(slice []string) []string {
 	return unique
 }
 
+var plainWord = regexp.MustCompile(`^\w+$`)
+
 func extractColumnsFromExpr(ident string, expr sqlparser.Expr) (bool, string, string, error) {
 
 	switch e := expr.(type) {
@@ -660,6 +663,14 @@ func extractColumnsFromExpr(ident string, expr sqlparser.Expr) (bool, string, st
 				}
 			}
 
+			// the name is handed to the selector reader as a path: a key that
+			// is not a plain word (`user-id`, `a b`, `prénom`) is a quoted key
+			// there
+			for i, part := range colName {
+				if i > 0 && !plainWord.MatchString(part) && !strings.ContainsAny(part, "'[]{}:|>") {
+					colName[i] = "'" + part + "'"
+				}
+			}
 			return ident == colName[0], colName[0], strings.Join(colName, "."), nil
 		}
 	default:
